@@ -61,7 +61,7 @@ package rpc
 //@ func importClient.Send -> ans, rel
 //@   props C09
 //@   locktypestate
-//@   partial lock pre post
+//@   partial lock post pre:Conn.tryLockSender pre:Conn.lockSender pre:Conn.unlockSender
 //@   requires ic != nil && ic.c != nil && nolocks() && !sending(ic.c)
 //@   ensures mu: nolocks()
 //@   ensures sender: !sending(ic.c)
@@ -69,7 +69,7 @@ package rpc
 //@ func question.PipelineSend -> ans, rel
 //@   props C09
 //@   locktypestate
-//@   partial lock pre post
+//@   partial lock post pre:Conn.tryLockSender pre:Conn.lockSender pre:Conn.unlockSender
 //@   requires q != nil && q.c != nil && nolocks() && !sending(q.c)
 //@   ensures mu: nolocks()
 //@   ensures sender: !sending(q.c)
